@@ -37,7 +37,7 @@ def check(ctx):
     if rc["rc"] == 0 or "SameAnswer" not in rc["out"] and "Assumption" not in rc["out"]:
         raise Inconclusive("RangeDerivation with the pinned tree's residual rule no longer fails: the design model lost its sensitivity")
     tr = os.path.join(ctx.work, "c06.ndjson")
-    vlib.vdrive(ctx, ["sql", "c06", tr, 1500 if thorough else 120, 1], timeout=3000)
+    vlib.vdrive_resumable(ctx, ["sql", "c06", tr, 1500 if thorough else 120, 1], tr, timeout=3000)
     res = vlib.validate(ctx, FAM, "SqlModelTrace", "Trace.cfg", tr, name="val-c06", timeout=3400)
     judge(ctx, res, tr, "single-table statements")
     c = count_events(tr)
